@@ -240,7 +240,13 @@ def add_clause(b, kw, rest, path, ln):
     elif kw == 'define':
         b.defines = getattr(b, 'defines', []) + rest.split()
     elif kw == 'tier':
-        b.tier = rest
+        # 'tier thorough'  or  'tier thorough if <python expression over the template variables>'
+        if ' if ' in rest:
+            t, cond = rest.split(' if ', 1)
+            if eval(cond, dict(TENV), dict(getattr(b, 'env', {}))):
+                b.tier = t.strip()
+        else:
+            b.tier = rest
     elif kw == 'bounded':
         b.bounded = rest
     else:
@@ -253,6 +259,15 @@ def load_blocks():
     for f in sorted(os.listdir(d)):
         if f.endswith('.ctr'):
             out += parse_ctr(os.path.join(d, f))
+    import copy
+    extra = []
+    for b in out:
+        if b.mode == 'BOTH':
+            b2 = copy.copy(b)
+            b2.mode = 'IEEE'
+            b.mode = 'EXACT'
+            extra.append(b2)
+    out += extra
     names = {}
     for b in out:
         key = (b.name, b.mode)
@@ -331,7 +346,7 @@ def get_unit(unit, blocks, mode):
     u = bs2c.build_unit(unit_json(unit))
     ctrs = {}
     for b in blocks:
-        if b.kind == 'function' and b.unit == unit and b.mode in (mode, 'BOTH'):
+        if b.kind == 'function' and b.unit == unit and (b.mode == mode or (mode != 'IEEE' and b.mode == 'EXACT')):
             if '#' not in b.name or b.name not in ctrs:
                 ctrs.setdefault(b.fn, {}).update(loop_clauses(b))
     u.contracts = ctrs
@@ -400,7 +415,7 @@ def vec_eq_shim(u, m):
 def gen_c(b, blocks, path):
     mode = 'IEEE' if b.mode == 'IEEE' else 'EXACT'
     u = get_unit(b.unit, blocks, b.mode)
-    byname = {x.name: x for x in blocks if x.kind == 'function' and x.unit == b.unit and x.mode in (b.mode, 'BOTH')}
+    byname = {x.name: x for x in blocks if x.kind == 'function' and x.unit == b.unit and x.mode == b.mode}
     if b.kind == 'function':
         byname[b.fn] = b          # the variant under proof supplies the clauses of its own function
     roots = []
@@ -691,12 +706,13 @@ def list_properties(gb):
     return ids
 
 
-def decide(gb, b, tmo, only=None):
+def decide(gb, b, tmo, only=None, extra=None):
+    extra0 = list(extra or [])
     """all obligations of one instrumented program: first in one query per solver; if no solver settles
     that within FAST_TIMEOUT, obligation by obligation (the conjunction is often much harder than its parts)"""
     solvers = b.solvers or SOLVERS
     # blocks with loop contracts go obligation by obligation at once: their single query rarely finishes
-    outs = [] if (b.loops or getattr(b, 'split', False) or only is not None) else portfolio(gb, solvers, [], min(tmo, FAST_TIMEOUT))
+    outs = [] if (b.loops or getattr(b, 'split', False) or only is not None) else portfolio(gb, solvers, extra0, min(tmo, FAST_TIMEOUT))
     if outs and outs[0]['status'] == 'done' and all(x.get('status') in ('SUCCESS', 'FAILURE') for x in outs[0]['results']):
         for p in outs[0]['results']:
             p['solver'] = outs[0]['solver']
@@ -711,7 +727,7 @@ def decide(gb, b, tmo, only=None):
     merged = {}
 
     def one(plist):
-        extra = []
+        extra = list(extra0)
         for p in plist:
             extra += ['--property', p]
         o = portfolio(gb, solvers, extra, tmo)
@@ -760,18 +776,13 @@ def refute_small(r, b, cfile, hname, cmd, ids, tmo):
     rc, out, err, dt = sh(['goto-cc', '--function', hname, '-DBS_CANARY()=', '-DBS_SMALLGRID=1', '-DBS_CAP=8UL'] + defs + ['-o', base + '.s.gb', cfile], 120)
     if rc != 0:
         return set()
-    ctext = open(cfile).read()
-    try:
-        src_gb, _ = prepare_loops(base + '.s.gb', base + '.su.gb', ctext, cfile, b)
-    except Undecided:
-        return set()
-    cmd2 = [x for x in cmd]
-    # loop flags of the main run sit just before the two file names
-    cmd2 = cmd2[:-2] + [src_gb, base + '.t.gb']
+    # the small instance ignores the loop contracts: every loop is unwound completely (at most BS_CAP + 1 iterations),
+    # so the postconditions are checked against the loops themselves, not against their invariants
+    cmd2 = [x for x in cmd if x != '--apply-loop-contracts'][:-2] + [base + '.s.gb', base + '.t.gb']
     rc, out, err, dt = sh(cmd2, 300)
     if rc != 0:
         return set()
-    results, how = decide(base + '.t.gb', b, min(tmo, 120), only=ids)
+    results, how = decide(base + '.t.gb', b, min(tmo, 120), only=ids, extra=['--unwind', '10'])
     if results is None:
         return set()
     return {x['property'] for x in results if x.get('status') == 'FAILURE'}
@@ -889,13 +900,16 @@ def run_block(r, blocks, keep=False, verbose=False):
     bad = [x for x in r.obligations if x['status'] == 'FAILURE' and x not in unwind_fail]
     und = [x for x in r.obligations if x['status'] not in ('SUCCESS', 'FAILURE')]
     r.bounded_only = False
-    if (und or unwind_fail) and not bad:
+    LOOP_OBL = re.compile(r'\.(loop_invariant_base|loop_invariant_step|loop_decreases|loop_assigns|loop_step_unwinding)\.')
+    loop_bad = [x for x in bad if LOOP_OBL.search(x['id'] or '')]
+    if (und or unwind_fail or (loop_bad and len(loop_bad) == len(bad))):
         # Small instance (every vector capped at 8 elements, ghost relations defined from the contents, all
         # loops unwound completely): a failure there is a failure of the general obligation; a success there
         # proves nothing.  It decides (a) obligations the solvers cannot refute in the presence of quantified
         # assumptions and (b) functions that have acquired a loop without a loop contract -- then *every*
         # obligation is re-examined, because truncated paths make the unbounded run's successes meaningless.
-        ids = None if unwind_fail else [x['id'] for x in und]
+        # a broken loop invariant masks the postconditions (they are proved from the invariant): re-examine all
+        ids = None if (unwind_fail or loop_bad) else [x['id'] for x in und]
         rf = refute_small(r, b, cfile, hname, cmd, ids, tmo)
         for x in r.obligations:
             if x['id'] in rf and '.unwind.' not in (x['id'] or ''):
@@ -1014,7 +1028,8 @@ def clause_of(r, o):
 
 def check_property(pid, tier, blocks, verbose=True):
     t0 = time.time()
-    sel = [b for b in blocks if pid in b.tags and (tier == 'thorough' or b.tier == 'quick')]
+    sel = [b for b in blocks if (pid in b.tags or (pid == 'C09' and b.kind == 'function'))
+           and (tier == 'thorough' or b.tier == 'quick')]
     if not sel:
         print('UNDECIDED: no contract block states %s' % pid)
         return 2
